@@ -339,14 +339,57 @@ func runHistory(t *rapid.T, secure bool) {
 	var otherPL proofList
 	otherT.Prove([]byte{3, 0x10, 21}, 0, &otherPL)
 
+	forks := 0
 	model := sortedModel{}
+	// hashed key -> key: the trie's own preimage lookup, or - once the trie has been forked (a copy starts with an empty
+	// preimage cache and knows only what was committed: upstream behaviour, not part of the property) - the harness' books
+	written := map[string][]byte{}
+	preimage := func(hk []byte) []byte {
+		if forks > 0 {
+			return written[string(hk)]
+		}
+		return sec.GetKey(hk)
+	}
+	var sib kvTrie
+	var sibPlain *trie.Trie
+	var sibSec *trie.SecureTrie
+	var sibModel sortedModel
+	var sibTdb *trie.Database
 	var hist []opRec
 	n := rapid.IntRange(1, 50).Draw(t, "nops")
 	deletes, commits, reopens, overw := 0, 0, 0, 0
 	everPrefix := false
 	for i := 0; i < n; i++ {
-		op := rapid.SampledFrom([]string{"upd", "upd", "upd", "upd", "del", "del", "get", "hash", "commit", "reopen", "iter", "prove"}).Draw(t, "op")
+		op := rapid.SampledFrom([]string{"upd", "upd", "upd", "upd", "del", "del", "get", "hash", "commit", "reopen", "iter", "prove", "fork", "switch"}).Draw(t, "op")
 		switch op {
+		case "fork":
+			// the trie is forked the way its users fork it (SecureTrie.Copy; a struct copy of a plain trie - state.CopyTrie,
+			// StateDB.Copy): from here on there are two tries with their own content, whatever is still uncommitted in them
+			hist = append(hist, opRec{Op: "fork"})
+			sibModel = sortedModel{}
+			for k, v := range model {
+				sibModel[k] = v
+			}
+			if secure {
+				sibSec = sec.Copy()
+				sib = sibSec
+			} else {
+				cp := *plain
+				sibPlain = &cp
+				sib = sibPlain
+			}
+			sibTdb = tdb // a fork shares the node database of its origin
+			forks++
+		case "switch":
+			if sib == nil {
+				continue
+			}
+			hist = append(hist, opRec{Op: "switch"})
+			tr, sib = sib, tr
+			model, sibModel = sibModel, model
+			plain, sibPlain = sibPlain, plain
+			sec, sibSec = sibSec, sec
+			tdb, sibTdb = sibTdb, tdb
 		case "upd":
 			var k []byte
 			if len(model) > 0 && rapid.IntRange(0, 3).Draw(t, "reuse") == 0 {
@@ -357,6 +400,7 @@ func runHistory(t *rapid.T, secure bool) {
 			}
 			v := genVal(t, "v")
 			hist = append(hist, opRec{"upd", fmt.Sprintf("%x", k), fmt.Sprintf("%x", v)})
+			written[string(crypto.Keccak256(k))] = k
 			if err := tr.TryUpdate(k, v); err != nil {
 				vstat.Violation(t, P, "update-error", "TryUpdate(%x) error %v", k, err)
 			}
@@ -430,7 +474,7 @@ func runHistory(t *rapid.T, secure bool) {
 				start = genKey(t, "start")
 			}
 			if secure {
-				checkIter(t, tr, model, func(hk []byte) []byte { return sec.GetKey(hk) }, false, nil, "iter")
+				checkIter(t, tr, model, preimage, false, nil, "iter")
 			} else {
 				checkIter(t, tr, model, nil, true, start, "iter")
 			}
@@ -445,6 +489,42 @@ func runHistory(t *rapid.T, secure bool) {
 		}
 		if !everPrefix && hasProperPrefixPair(model) {
 			everPrefix = true
+		}
+		// the other trie of a fork still reads what was written to IT
+		if sib != nil {
+			probe := map[string]bool{}
+			for k := range model {
+				probe[k] = true
+			}
+			for k := range sibModel {
+				probe[k] = true
+			}
+			for k := range probe {
+				got, err := sib.TryGet([]byte(k))
+				if err != nil || !bytes.Equal(got, sibModel[k]) {
+					vstat.Violation(t, P, "fork:other-trie-sees-foreign-content", "after %s on one trie of a fork, the OTHER trie reads Get(%x) = %x, %v ; last written to it: %x ; history %v", op, k, got, err, sibModel[k], hist)
+					return
+				}
+			}
+		}
+	}
+	if sib != nil && forks > 0 {
+		vstat.Label("history_with_fork")
+		// its root is the canonical root of ITS content
+		var ref kvTrie
+		if secure {
+			r2, _ := trie.NewSecure(common.EmptyHash, trie.NewDatabase(dbm.NewMemDB()), 0)
+			ref = r2
+		} else {
+			r2, _ := trie.New(common.EmptyHash, trie.NewDatabase(dbm.NewMemDB()))
+			ref = r2
+		}
+		for _, k := range sibModel.keys() {
+			ref.TryUpdate([]byte(k), sibModel[k])
+		}
+		if sib.Hash() != ref.Hash() {
+			vstat.Violation(t, P, "fork:other-trie-root-not-of-its-content", "the other trie of a fork has root %x, its content gives %x ; history %v", sib.Hash(), ref.Hash(), hist)
+			return
 		}
 	}
 	// every key reads back; a sample of absent keys reads nil
@@ -494,7 +574,7 @@ func runHistory(t *rapid.T, secure bool) {
 	}
 	// final full iteration and proofs for every key (bounded) on the history trie
 	if secure {
-		checkIter(t, tr, model, func(hk []byte) []byte { return sec.GetKey(hk) }, false, nil, "final-iter")
+		checkIter(t, tr, model, preimage, false, nil, "final-iter")
 	} else {
 		checkIter(t, tr, model, nil, true, nil, "final-iter")
 	}
